@@ -22,12 +22,14 @@ from vlib.build import BuildError
 from tools.gen import stream as gen_stream
 from tools.gen import procstat as gen_procstat
 from tools.gen import net as gen_net
+from tools.gen import dispatch as gen_dispatch
 from tools.gen.csrc import ExtractError
 
 sys.path.insert(0, os.path.join(VERIF, "harness", "C16"))
 import scen  # noqa: E402
 import plumb  # noqa: E402
 import netcorr  # noqa: E402
+import wordcorr  # noqa: E402
 
 THEOREMS = ["JanetModel.Props.C16." + t for t in (
     "write_delivers_all_in_order", "sendto_delivers_prefix", "read_at_most_n", "chunk_exact_unless_eof",
@@ -49,11 +51,19 @@ THEOREMS = ["JanetModel.Props.C16." + t for t in (
     # session 4: operations composed with the slot registry (one stream, many fibers), system-level liveness under fairness
     "shared_stream_isolation", "shared_stream_invariant", "concurrent_writer_refused", "shared_stream_write_delivers_in_order",
     "shared_stream_write_terminates_under_fairness", "shared_stream_read_in_order", "shared_stream_read_terminates_under_fairness",
-    "shared_stream_close_wakes_all", "shared_stream_refines_registry")]
+    "shared_stream_close_wakes_all", "shared_stream_refines_registry",
+    # session 4 (second pass): readiness dispatch of janet_loop1_impl, epoll event WORDS composed with the read / write machines
+    "read_words_refine_events", "read_words_at_most_n", "readable_byte_never_dropped", "nil_at_readable_word_only_after_reading",
+    "err_first_drops_readable_bytes", "write_words_refine_events", "write_words_deliver_all_in_order", "accepted_write_completes")]
+DISPATCH_CURRENT = ["JanetModel.Stream.DispatchCurrent." + t for t in (
+    "current_dispatch_complete", "current_dispatch_data_first", "current_dispatch_out_first", "current_dispatch_conditions_reach_both",
+    "current_dispatch_nothing_spurious", "current_read_case_groups", "current_write_case_groups",
+    "readable_byte_never_dropped_current", "accepted_write_completes_current")]
 NET_CURRENT = ["JanetModel.Stream.NetCurrent." + t for t in (
     "current_source_event_codes", "current_source_connect_quiet_on_gc", "current_source_connect_checks_on_readiness",
     "connect_unaffected_by_gc_current", "current_source_accept_groups", "current_source_accept_loop_level_triggered")]
 NETDRIVE_CASES = {"quick": 30000, "thorough": 600000}
+WORDDRIVE_CASES = {"quick": 30000, "thorough": 600000}
 PROC_CURRENT = ["JanetModel.Proc.Current." + t for t in (
     "current_source_waitpid_options", "exit_status_exact_current", "current_source_moves_std_sources")]
 # all 2^16 status words (kernel evaluation in eight ranges, ~40 s CPU each when cold): thorough tier, and quick tier when already built
@@ -772,8 +782,16 @@ def run(ctx, only=None):
     except ExtractError as e:
         broken.append("translator tools/gen/net.py (shape of net.c / janet.h / ev.c changed): %s" % e)
         ctx.broken.append(broken[-1])
+    dfacts = None
+    try:
+        ctx.gen("Dispatch.lean", gen_dispatch.render(ctx.build.tree))
+        dfacts = gen_dispatch.extract(ctx.build.tree)
+    except ExtractError as e:
+        broken.append("translator tools/gen/dispatch.py (shape of janet_loop1_impl changed): %s" % e)
+        ctx.broken.append(broken[-1])
     # (B,C)
     broken += ctx.obligations("JanetModel.Props.C16", THEOREMS)
+    broken += ctx.obligations("JanetModel.Stream.DispatchCurrent", DISPATCH_CURRENT)
     net_broken = ctx.obligations("JanetModel.Stream.NetCurrent", NET_CURRENT)
     broken += net_broken
     cur_broken = ctx.obligations("JanetModel.Stream.Current", CURRENT)
@@ -803,6 +821,7 @@ def run(ctx, only=None):
     jobs = []
     plumb_batches = []
     netseq_lines = []
+    wordseq_lines = []
     # corpus first: targeted scenarios and minimised past failures
     cdir = os.path.join(VERIF, "corpus", "C16")
     if os.path.isdir(cdir):
@@ -814,6 +833,8 @@ def run(ctx, only=None):
                     plumb_batches.append(j["cases"])
                 elif j.get("family") == "netseq":
                     netseq_lines += j["cases"]
+                elif j.get("family") == "wordseq":
+                    wordseq_lines += j["cases"]
                 else:
                     jobs.append(("corpus", fn, j))
     for fam, cnt in quota.items():
@@ -882,6 +903,37 @@ def run(ctx, only=None):
         broken.append("correspondence net_callback_connect / net_callback_accept vs Stream.Net model on %d of %d cases, first: %r" % (len(ndiffs), nnet, ndiffs[0]))
         if not ctx.nviol:
             ctx.broken.append(broken[-1])
+    # readiness dispatch of janet_loop1_impl: injected epoll words vs the model on the regenerated table (D) + direct expectations,
+    # "the peer answers and hangs up with unread input" on real sockets (E)
+    ctx.say("readiness dispatch (epoll words injected in process, peer hang-up scenarios)")
+    wstats, wdiffs, nword = {}, [], 0
+    if not only or only == "words":
+        try:
+            nword, wfails, wdiffs, wstats = wordcorr.run_words(exe, ctx.seed, WORDDRIVE_CASES[ctx.tier] * (3 if broken else 1),
+                                                               (lambda lines: ctx.model(lines, exe=drv)) if drv else None, wordseq_lines)
+        except Exception as e:   # noqa: BLE001
+            wfails = [("worddrive:harness-failed", "dispatch cases could not be run: %s: %s" % (type(e).__name__, e), None)]
+        try:
+            nh, hfails, hstats = wordcorr.run_hangup(exe, ctx.seed)
+            nword += nh
+            wstats.update(hstats)
+            wfails += [(sig, desc, {"kind": "hangup", "failure": desc, "how": "c16io harness/C16/hangup.janet <dir> %d" % ctx.seed}) for sig, desc in hfails]
+        except Exception as e:   # noqa: BLE001
+            wfails.append(("hangup:harness-failed", "peer hang-up scenarios could not be run: %s: %s" % (type(e).__name__, e), None))
+        byclass = {}
+        for sig, desc, rep in wfails:
+            byclass.setdefault(sig, []).append((desc, rep))
+        for sig, items in byclass.items():
+            if sig not in reported:
+                reported.add(sig)
+                desc, rep = items[0]
+                rep = dict(rep or {"kind": "wordseq", "cases": []}, all_failing=[d for d, _ in items[:20]], count=len(items))
+                ctx.violation(sig, rep, what=desc[:700] + (" (+%d more cases)" % (len(items) - 1) if len(items) > 1 else ""))
+        if wdiffs:
+            broken.append("correspondence janet_loop1_impl dispatch + ev_callback_read/_write vs Stream.Dispatch model on %d of %d cases, first: %r"
+                          % (len(wdiffs), nword, wdiffs[0]))
+            if not ctx.nviol:
+                ctx.broken.append(broken[-1])
     # descriptor plumbing of os/spawn / os/execute: direct oracle (E) + model correspondence on syscalls and descriptor tables (D)
     ctx.say("descriptor plumbing, process life cycle, status words")
     npl = PLUMB_CASES[ctx.tier] * (3 if broken and quick else 1)
@@ -966,12 +1018,13 @@ def run(ctx, only=None):
     elif broken:
         ctx.say("broken obligations (failing input reported above): " + "; ".join(broken)[:600])
     cov = {
-        "evaluations": nops + nexec + ncorr + nstat + nplumb + nlife + nnet,
+        "evaluations": nops + nexec + ncorr + nstat + nplumb + nlife + nnet + nword,
         "distinct_nontrivial": len(results) + nexec + nplumb,
         "rule": "one evaluation = one janet-level stream operation judged by the direct oracle, one exit-status / redirection case, or one "
                 "operation whose intercepted syscall sequence was compared with the Lean model, one os/spawn / os/execute plumbing case, or one "
                 "wait-status word decoded by the compiled proc_get_status and compared, or one generated event sequence driven through "
-                "net_callback_connect / net_callback_accept and compared with the model; non-trivial = distinct generated scenario / case",
+                "net_callback_connect / net_callback_accept and compared with the model, or one read / write operation driven through "
+                "janet_loop1_impl by injected epoll words, or one peer hang-up exchange on real sockets; non-trivial = distinct generated scenario / case",
         "samples": [json.dumps({"family": sc["family"], "streams": sc["streams"], "payload_sizes": sc["payload_sizes"][:4], "faults": sc["faults"]})[:300]
                     for _, _, sc, _, _, _ in results[:4]],
         "scenarios": len(results), "scenario_families": fam_count, "stream_kinds": kinds,
@@ -986,6 +1039,9 @@ def run(ctx, only=None):
         "life_cycle_sequences": nlife, "life_cycle_ops": lhist, "life_cycle_model_diffs": len(ldiffs),
         "status_words_compared": nstat, "status_word_diffs": len(sdiffs),
         "socket_callbacks": nstats, "socket_callback_model_diffs": len(ndiffs), "net_source_facts": nfacts,
+        "readiness_dispatch": wstats, "readiness_dispatch_model_diffs": len(wdiffs),
+        "dispatch_table": {gen_dispatch.word_name(w): " ".join("%s<-%s" % ("rw"[sl], gen_dispatch.KNAME[k]) for sl, k in evs)
+                           for w, evs in (dfacts or {}).get("table", {}).items()},
         "status_decoder_regenerated": (pfacts or {}).get("branches_c"), "waitpid_options": (pfacts or {}).get("waitpidOptions"),
         "source_facts": facts, "broken": broken[:6],
     }
@@ -1003,6 +1059,10 @@ def run(ctx, only=None):
         "getsockopt(SO_ERROR) == 0 means the handshake has not failed; both assumed, exercised by harness/C16/conn.janet on real sockets",
         "shared-stream theorems: the composed machine takes both slot guards as present; that is the regenerated fact "
         "Gen.Stream.guardsReadSlot / guardsWriteSlot (Stream/Current.lean)",
+        "readiness dispatch: the table Gen.Dispatch is obtained by compiling the stream branch of the epoll janet_loop1_impl verbatim "
+        "against stub JanetFiber / JanetStream definitions and executing it for all 16 flag words (the C compiler is trusted as it is for "
+        "the build); which words the kernel reports for a reset connection (EPOLLIN|EPOLLERR|EPOLLHUP in one event) is the kernel's behaviour, "
+        "exercised on real unix / TCP sockets by harness/C16/hangup.janet; poll / kqueue back ends are not modelled",
         "windows (IOCP / AcceptEx / WSAConnect) branches are not modelled"])
 
 
@@ -1024,6 +1084,20 @@ def replay(ctx, path):
         for sig, desc, c in netcorr.oracle(cases):
             ctx.violation(sig, {"kind": "netseq", "cases": [netcorr.case_text(c)], "failure": desc}, what=desc[:600])
         return ctx.finish("proof", {"evaluations": len(cases), "distinct_nontrivial": len(cases), "rule": "replay of socket-callback event sequences", "samples": r["cases"][:3]})
+    if r.get("kind") == "wordseq" and r.get("cases"):
+        exe = ctx.build.harness("asan", "c16io", [os.path.join(VERIF, "harness/C16/evwrap.c")], extra_ld=[WRAP])
+        ok, text, err = wordcorr.run_drive(exe, ctx.seed, 0, r["cases"])
+        print(text[-3000:], err)
+        cases = wordcorr.parse(text)
+        for sig, desc, c in wordcorr.oracle(cases):
+            ctx.violation(sig, {"kind": "wordseq", "cases": [wordcorr.case_line(c)], "failure": desc}, what=desc[:700])
+        return ctx.finish("proof", {"evaluations": len(cases), "distinct_nontrivial": len(cases), "rule": "replay of injected epoll word sequences", "samples": r["cases"][:3]})
+    if r.get("kind") == "hangup":
+        exe = ctx.build.harness("asan", "c16io", [os.path.join(VERIF, "harness/C16/evwrap.c")], extra_ld=[WRAP])
+        n, hfails, st = wordcorr.run_hangup(exe, ctx.seed)
+        for sig, desc in hfails:
+            ctx.violation(sig, {"kind": "hangup", "failure": desc}, what=desc[:700])
+        return ctx.finish("proof", {"evaluations": n, "distinct_nontrivial": n, "rule": "replay of the peer hang-up scenarios", "samples": [json.dumps(st)[:300]]})
     if r.get("kind") == "conn":
         exe = ctx.build.harness("asan", "c16io", [os.path.join(VERIF, "harness/C16/evwrap.c")], extra_ld=[WRAP])
         n, cfails, st, _ = netcorr.run_conn(exe, ctx.seed)
